@@ -32,7 +32,8 @@ OWN = {
             "method_is_new_or_refreshed_by_the_update", "event_result_is_the_methods_result", "events_use_the_contexts_data", "current_method_is_last",
             "constructor_consults_the_user_files_whatever_the_options", "data_is_the_same_for_every_layout_and_option",
             "reconfigured_context_gives_the_list_of_a_new_one", "reconfigured_context_gives_the_preselection_of_a_new_one",
-            "key_obeys_the_options_in_force_now", "key_emits_what_the_layout_now_loaded_assigns"},
+            "key_obeys_the_options_in_force_now", "key_emits_what_the_layout_now_loaded_assigns",
+            "shown_list_and_preselection_are_the_assemblys_answer"},
     "C15": {"first_candidate_is_the_composed_text", "at_most_nine", "english_candidate_iff_enabled_and_not_ansi_and_different", "english_candidate_is_the_raw_keys",
             "non_emoji_candidates_by_distance", "no_candidate_twice", "dictionary_candidates_are_search_answers_wrapped", "pattern_is_anchored",
             "pattern_has_the_letter_class", "literal_part_has_no_regex_meta_character", "literal_part_is_the_word_without_punctuation", "wildcard_width_by_length",
